@@ -224,3 +224,73 @@ def world(job):
         return out
     finally:
         dpath.unlink()
+
+
+# ---------------------------------------------------------------- shipped fixtures: a guided random walk
+def _candidates(domain, problem, state, rnd, per_action=40):
+    """argument tuples likely to be applicable: parameters bound by unifying positive precondition literals with facts
+    of the state (a generator of inputs only; nothing is concluded from it)"""
+    from pddl_plus_parser.models import Predicate
+    universe = list(problem.objects.items()) + list(domain.constants.items())
+    facts = {}
+    for preds in state.state_predicates.values():
+        for gp in preds:
+            facts.setdefault(gp.name, []).append(list(gp.object_mapping.values()))
+    out = []
+    for an, a in domain.actions.items():
+        params = list(a.signature.items())
+        pools = {p: [n for n, o in universe if o.type.is_sub_type(t)] for p, t in params}
+        if not all(pools.values()) and params:
+            continue
+        lits = [c for c in a.preconditions.root.operands if isinstance(c, Predicate) and c.is_positive]
+        for _ in range(per_action):
+            binding = {}
+            order = list(lits)
+            rnd.shuffle(order)
+            for lit in order:
+                rows = [r for r in facts.get(lit.name, []) if len(r) == len(lit.signature) and
+                        all(binding.get(p, v) == v for p, v in zip(lit.signature, r) if p in pools)]
+                if rows and rnd.random() < 0.9:
+                    row = rnd.choice(rows)
+                    for p, v in zip(lit.signature, row):
+                        if p in pools:
+                            binding[p] = v
+            args = [binding.get(p) or rnd.choice(pools[p]) for p, _ in params]
+            out.append((an, args))
+    rnd.shuffle(out)
+    return out
+
+
+def fixture_walk(job):
+    """job: domain (path), problem (path), seed, steps -> the domain text, the objects and probes (state, action, args)"""
+    from pathlib import Path
+    domain = DomainParser(Path(job["domain"])).parse_domain()
+    problem = ProblemParser(Path(job["problem"]), domain).parse_problem()
+    rnd = random.Random(job["seed"])
+    state = State(problem.initial_state_predicates, problem.initial_state_fluents, is_init=True)
+    objs = [[n, o.type.name] for n, o in problem.objects.items()]
+    probes, seen = [], set()
+    for _ in range(job["steps"]):
+        st = read_state_text(state.serialize())
+        app, inapp = [], []
+        for an, args in _candidates(domain, problem, state, rnd):
+            if (an, tuple(args)) in seen and rnd.random() < 0.7:
+                continue
+            if len(app) >= 3 and len(inapp) >= 1:
+                break
+            try:
+                ok = Operator(domain.actions[an], domain, list(args), problem.objects).is_applicable(state)
+            except Exception:  # noqa
+                continue
+            (app if ok else inapp).append((an, args))
+        chosen = app[:3] + inapp[:1]
+        for an, args in chosen:
+            seen.add((an, tuple(args)))
+            probes.append({"state": st, "action": an, "args": list(args)})
+        if not app:
+            break
+        # prefer an action with conditional / universal effects to advance
+        app.sort(key=lambda c: -(len(domain.actions[c[0]].conditional_effects) + len(domain.actions[c[0]].universal_effects)))
+        an, args = app[0] if rnd.random() < 0.6 else rnd.choice(app)
+        state = Operator(domain.actions[an], domain, list(args), problem.objects).apply(state)
+    return {"domain_text": open(job["domain"]).read(), "domain_name": domain.name, "objects": objs, "probes": probes}
